@@ -41,6 +41,7 @@ func (h *hist) opIndex(o op, written map[string]wr, mustAbsent map[string]string
 	}
 	qI := h.db.q[ik]
 	switch {
+	case h.panickedOp(o, "index", res):
 	case h.preCancelled(o, err):
 		for _, k := range []string{ik, pk, freshPK} {
 			if _, had := h.prev[k]; k != "" && !had {
